@@ -239,6 +239,11 @@ def run(ctx):
                     names = ['x' + it[1] + 'y' for it in special] + ['xy', 'xay', 'x(?#)y']
                     with ctx.case(label=gen.ser(toks)):
                         check(ctx, G if path_mode else F, gen.ser(toks), None, ['EXTMATCH'], names, toks)
+                    # the same bracket without a group, with and without EXTMATCH and under other parser modes
+                    toks2 = (('lit', 'x'), ('set', neg, items, '!'), ('lit', 'y'))
+                    for fl2 in ([], ['EXTMATCH'], ['DOTMATCH'], ['IGNORECASE'], ['FORCEWIN'], ['NEGATE'], ['SPLIT'], ['BRACE']):
+                        with ctx.case(label=(gen.ser(toks2), tuple(fl2))):
+                            check(ctx, G if path_mode else F, gen.ser(toks2), None, fl2, names, toks2 if not fl2 or fl2 == ['EXTMATCH'] else None)
     k = 0
     limit = 120 if quick else 10 ** 9
     while k < limit and not ctx.out_of_time():
@@ -252,6 +257,8 @@ def run(ctx):
         if not toks or gen.ambiguous_adjacency(toks):
             continue
         fn = ['EXTMATCH'] + flag_choice(rng, path_mode, k)
+        if gen.count_groups(toks) == 0 and k % 4 == 0:
+            fn = fn[1:]       # patterns without extended groups mean the same without EXTMATCH: the other code paths of the parser
         with ctx.case(label=(gen.ser(toks), fn)):
             check(ctx, G if path_mode else F, gen.ser(toks), None, fn, universe(ctx, toks, rng, path_mode, fn), toks)
         # composite
